@@ -188,7 +188,7 @@ def c_history(ctx, case):
 # ---------------------------------------------------------------------------- permutations
 
 def g_perm(draw):
-    kind = gen.choice(draw, ["kmeans", "gmm", "isv", "jfa", "wccn", "fa_array", "jfa_bag"])
+    kind = gen.choice(draw, ["kmeans", "gmm", "isv", "jfa", "wccn", "fa_array", "jfa_bag", "fa_array"])
     r = gen.rng(draw)
     c = {"kind": kind}
     if kind in ("kmeans", "gmm"):
@@ -225,7 +225,7 @@ def g_perm(draw):
             c["sessions"] = [gen.fractional_stats(draw, p["C"], p["F"], p["means"], p["variances"],
                                                   n_frames=gen.integer(draw, 1, 8), r=r) for _ in range(n)]
         c.update(y=y, em=gen.integer(draw, 1, 2), perm=gen.permutation(draw, n), relabel=gen.permutation(draw, K),
-                 npart=gen.integer(draw, 1, n), dask=(kind == "fa_array" and gen.boolean(draw)),
+                 npart=gen.integer(draw, 1, n), dask=(kind == "fa_array" and gen.choice(draw, [True, True, False])),
                  chunks=gen.composition(draw, n, max_parts=3))
     return c
 
